@@ -1468,7 +1468,9 @@ class ASAAclLine(ASACfgLine):
             logger.critical(error)
             raise InvalidParameters(error)
 
-        self.text = text
+        # Assign _text directly (as BaseCfgLine.__init__() does); the text
+        # setter escapes curly-braces and must not rewrite a parsed line
+        self._text = text
         self._mm_results = None
 
         mm = _RE_ACLOBJECT.search(text)
